@@ -702,3 +702,9 @@ mod tests {
         batcher.into_single_batch();
     }
 }
+
+#[cfg(kani)]
+#[allow(warnings, clippy::all, clippy::pedantic)]
+mod verif_kani {
+    include!(concat!(env!("IPA_VERIF_DIR"), "/harness/batcher.rs"));
+}
